@@ -91,6 +91,15 @@ def curve(name):
         r.simulate(t)
         r.recovery_factor()
         f = r.recovery_factor_interpolator()
+    elif name in ("cubic-table", "extrap-table"):
+        # the user's OWN interpolator objects: a thinned recovery table read with a cubic spline, and a
+        # linear one that extrapolates beyond its last row (t / tau goes up to 3 and the table stops at
+        # 2); the forecaster must evaluate the callable it was given, whatever its type
+        from scipy.interpolate import interp1d
+
+        tt = np.linspace(0.0, np.sqrt(2.0 if name == "extrap-table" else 60.0), 60 if name == "extrap-table" else 400) ** 2
+        vals = D.fourier_recovery(tt, n_terms=4000)
+        f = interp1d(tt, vals, kind="cubic", bounds_error=False, fill_value=(0.0, float(vals[-1]))) if name == "cubic-table" else interp1d(tt, vals, kind="linear", fill_value="extrapolate")
     else:
         tt = np.concatenate([[0.0], np.logspace(-7, np.log10(60.0), 3000)])
         vals = D.fourier_recovery(tt, n_terms=4000)
@@ -105,6 +114,8 @@ def generate(ck):
     descs = []
     for i in range(n):
         cv = ["ideal", "realgas", "fourier"][i % 3]
+        if i % 7 == 3:
+            cv = ["cubic-table", "extrap-table"][(i // 7) % 2]
         M = float(10.0 ** rng.uniform(-6, 9)) if i % 5 else float(10.0 ** rng.uniform(-6, -3))
         tau = float(10.0 ** rng.uniform(-3, 5))
         base = {"curve": cv, "M": M, "tau": tau, "end": float(rng.uniform(0.6, 3.0)), "n": int(rng.integers(50, 401)), "t0": float(rng.choice([0.0, 1e-3]))}
@@ -363,6 +374,24 @@ def run_case(ck, desc):
     if not ck.margin("round trip recovers M and tau (1e-3)", max(eM, et), 1e-3):
         known = _k3(desc, f, t, y)
         ck.violation("round-trip", {"M_true": M, "M_fit": float(fo.M_), "tau_true": tau, "tau_fit": float(fo.tau_), "p0": c["p0"], "nfev": c["nfev"], "mesg": c["mesg"], "data_magnitude": float(np.max(np.abs(y)))}, desc, known_key=known)
+    # a second forecaster (another curve, other data) is fitted afterwards: the first one keeps its own
+    # fitted parameters and forecasts with them
+    if desc["n"] % 3 == 0:
+        M1, tau1 = float(fo.M_), float(fo.tau_)
+        before = np.asarray(fo.forecast_cum(t), dtype=float).copy()
+        f2 = curve({"ideal": "fourier", "realgas": "ideal", "fourier": "realgas"}.get(desc["curve"], "ideal"))
+        fo2 = ForecasterOnePhase(f2)
+        with warnings.catch_warnings():
+            warnings.simplefilter("ignore")
+            try:
+                fo2.fit(0.5 * t, 3.0 * M * np.asarray(f2(t / tau), dtype=float))
+            except Exception:  # noqa: BLE001  (the second fit is only a disturbance)
+                pass
+        _drain()
+        after = np.asarray(fo.forecast_cum(t), dtype=float)
+        if float(fo.M_) != M1 or float(fo.tau_) != tau1 or not np.array_equal(after, before):
+            ck.violation("forecast-uses-fitted-parameters", {"after": "a second forecaster was fitted", "M_": [M1, float(fo.M_)], "tau_": [tau1, float(fo.tau_)]}, desc)
+        ck.count("forecasts_after_another_forecaster_was_fitted")
     return True, {"M": M, "tau": tau, "rel_err": [eM, et], "nfev": c["nfev"]}
 
 
